@@ -196,7 +196,9 @@ class ProtocolContext:
         #  _fut.cancel() (via a wait_for())
 
         # Changing the order of the following is fraught with danger
-        if self._fut is None:  # logging only - IsInIdle, Inactive
+        if self._fut is None or (
+            self._fut.done() and isinstance(self._state, IsInIdle | Inactive)
+        ):  # logging only - IsInIdle, Inactive (incl. a fut that was answered earlier)
             _LOGGER.debug("BEFORE = %s", self)
             assert self._cmd is None, f"{self}: Coding error"  # mypy hint
             assert isinstance(
